@@ -220,6 +220,75 @@ def k_sparql_string(desc, F, s):
     return None
 
 
+class _LabelMap:
+    """label -> node map with linear search, for SinkParser._anonymousNodes (a real dict would hash, i.e. realise, a symbolic label)"""
+
+    def __init__(self):
+        self.items = []
+
+    def get(self, k, default=None):
+        for a, b in self.items:
+            if a == k:
+                return b
+        return default
+
+    def __getitem__(self, k):
+        r = self.get(k)
+        if r is None:
+            raise KeyError(k)
+        return r
+
+    def __setitem__(self, k, v):
+        self.items.append((k, v))
+
+    def __contains__(self, k):
+        return self.get(k) is not None
+
+
+def k_doc_labels(desc, F, l1, l2):
+    """a Turtle-family document in which two blank node labels are symbolic strings, through the real TriG / Turtle statement parser
+    into a real Dataset: the two occurrences denote one node exactly when the labels are equal - also across graph blocks"""
+    from rdflib import Dataset, URIRef
+    from rdflib.plugins.parsers.notation3 import RDFSink
+    from rdflib.plugins.parsers.trig import TrigSinkParser
+    if isinstance(l1, int) or type(l1).__name__ == "SymbolicInt":
+        # labels given as code points: strings of concrete length (all offsets in the document stay concrete)
+        l1, l2 = chr(l1), chr(l2)
+    for part in (l1, l2):
+        for c in part:
+            if not (("a" <= c <= "z") or ("0" <= c <= "9")):
+                return None
+    ds = Dataset()
+    p = TrigSinkParser(RDFSink(ds), baseURI="http://base.invalid/", turtle=True)
+    p._anonymousNodes = _LabelMap()
+    a, b = "_:b" + l1, "_:b" + l2
+    shape = desc["shape"]
+    if shape == "two-blocks":
+        doc = "<urn:g1> { %s <urn:p> <urn:o> . }\n<urn:g2> { %s <urn:p> <urn:o> . }\n" % (a, b)
+    elif shape == "default-then-block":
+        doc = "%s <urn:p> <urn:o> .\n<urn:g2> { %s <urn:p> <urn:o> . }\n" % (a, b)
+    elif shape == "graph-keyword":
+        doc = "GRAPH <urn:g1> { %s <urn:p> <urn:o> }\nGRAPH <urn:g2> { <urn:s> <urn:p> %s }\n" % (a, b)
+    elif shape == "one-block":
+        doc = "<urn:g1> { %s <urn:p> <urn:o> . <urn:s> <urn:q> %s . }\n" % (a, b)
+    else:
+        raise AssertionError(shape)
+    p.startDoc()
+    p.feed(doc)
+    p.endDoc()
+    from rdflib import BNode
+    nodes = []
+    for s_, p_, o_, g_ in ds.quads((None, None, None, None)):
+        for t in (s_, o_):
+            if isinstance(t, BNode):
+                nodes.append(t)
+    if len(nodes) != 2:
+        return "the document's two blank node occurrences give %d blank node positions" % len(nodes)
+    if (nodes[0] == nodes[1]) != (l1 == l2):
+        return "two occurrences of blank node labels in one TriG document: same label <-> same node does not hold (%s)" % shape
+    return None
+
+
 def k_ttl_roundtrip_long(desc, F, s):
     """same as k_ttl_roundtrip for strings containing a newline (the triple-quoted branch of Literal._quote_encode)"""
     return k_ttl_roundtrip(desc, F, "\n" + s)
@@ -521,7 +590,7 @@ def k_iri_join(desc, F, s1, s2, f, name):
     return None
 
 
-BODIES = {"k-sparql-string": k_sparql_string, "k-iri-join": k_iri_join, "k-rdfxml-lang": k_rdfxml_lang, "k-ttl-roundtrip-long": k_ttl_roundtrip_long, "k-plain-num": k_plain_num, "k-nt-writer": k_nt_writer, "k-nt-quoteliteral": k_nt_quoteliteral, "k-ttl-roundtrip": k_ttl_roundtrip,
+BODIES = {"k-doc-labels": k_doc_labels, "k-sparql-string": k_sparql_string, "k-iri-join": k_iri_join, "k-rdfxml-lang": k_rdfxml_lang, "k-ttl-roundtrip-long": k_ttl_roundtrip_long, "k-plain-num": k_plain_num, "k-nt-writer": k_nt_writer, "k-nt-quoteliteral": k_nt_quoteliteral, "k-ttl-roundtrip": k_ttl_roundtrip,
           "k-ttl-reader": k_ttl_reader, "k-nt-reader": k_nt_reader, "k-xml-text": k_xml_text}
 
 ESCAPES = ["", "\\n", "\\t", "\\\"", "\\'", "\\\\", "\\r", "\\b", "\\f", "\\u0041", "\\u00e9", "\\U0001F600", "\\u005C", "\\u0022",
